@@ -6,6 +6,7 @@ import PintModel.Model.UC
 import PintModel.Model.Registry
 import PintModel.Model.Load
 import PintModel.Model.Quantity
+import PintModel.Model.Pi
 import PintModel.Gen.DefaultRegistry
 
 open Lean
@@ -198,6 +199,25 @@ def stepQty (R0 : Registry) (j : Json) : Json :=
     | _ => badJ s!"q: unknown f {f}"
   | _, _ => badJ "q: missing f/a"
 
+
+/-! ### column echelon form / pi theorem (C04) -/
+
+def jMat? (j : Json) : Option Pi.Mat := do
+  let a ← jArr? j
+  a.toList.mapM fun r => do
+    let ra ← jArr? r
+    ra.toList.mapM jRat?
+
+def matJ (m : Pi.Mat) : Json := Json.arr (m.map fun r => Json.arr (r.map ratJ).toArray).toArray
+
+def stepPi (j : Json) : Json :=
+  match fStr j "f", field j "matrix" >>= jMat? with
+  | some "cef", some m =>
+    let (e, i, s) := Pi.columnEchelonForm m
+    okJ (Json.arr #[matJ e, matJ i, Json.arr (s.map (fun (n : Nat) => Json.num (JsonNumber.fromNat n))).toArray])
+  | some "pi", some m => okJ (matJ (Pi.piRows m))
+  | _, _ => badJ "pi: f/matrix"
+
 /-! ### registry queries (C01, C02, C08) -/
 
 def stepReg (st : DriverState) (op : String) (j : Json) : DriverState × Json :=
@@ -264,6 +284,10 @@ def stepReg (st : DriverState) (op : String) (j : Json) : DriverState × Json :=
       | none => (st, errJ .key)
     | none => (st, badJ "unit_info: s")
   | "reset" => ({ st with reg := Gen.defaultRegistry }, okJ Json.null)
+  | "define" =>
+    match field j "def" >>= jUnitDef? with
+    | some d => ({ st with reg := R.addUnit d }, okJ Json.null)
+    | none => (st, badJ "define: def")
   | "load" =>
     match field j "defs" >>= jArr? with
     | some a =>
@@ -284,6 +308,7 @@ def step (st : DriverState) (j : Json) : DriverState × Json :=
   | none => (st, badJ "no op")
   | some "uc" => (st, stepUC j)
   | some "q" => (st, stepQty st.reg j)
+  | some "pi" => (st, stepPi j)
   | some op => stepReg st op j
 
 end Pint
